@@ -1,7 +1,9 @@
 #!/bin/bash
 # MANIFEST.setup_cmd: build every registered harness once (warms the Go build cache), from files on disk only.
 set -u
-cd /verif || exit 2
+ROOT="$(cd "$(dirname "$0")" && pwd)"
+cd "$ROOT" || exit 2
+export VERIF_ROOT="$ROOT"
 export GOFLAGS=-mod=mod GOPROXY=off
 mkdir -p build/bin evidence replays
 cp /repo/go.sum go.sum
@@ -9,7 +11,7 @@ ids=$(python3 -c "
 import json
 print(' '.join(sorted({c['property_id'].lower() for c in json.load(open('MANIFEST.json'))['checks']})))")
 rc=0
-(cd tools/vinst && go build -o /verif/build/bin/vinst .) || rc=2
+(cd tools/vinst && go build -o "$ROOT/build/bin/vinst" .) || rc=2
 for id in $ids; do
   OV="build/overlay-$id.json"
   EXTRA=()
@@ -17,7 +19,7 @@ for id in $ids; do
     ./lib/build_inst.sh "$id" || { rc=2; continue; }
     EXTRA+=("build/inst-$id/map.json")
   fi
-  python3 lib/mkoverlay.py --out-dir "build/rw-$id" "${EXTRA[@]}" > "$OV" || { rc=2; continue; }
+  python3 lib/mkoverlay.py --out-dir "$ROOT/build/rw-$id" "${EXTRA[@]}" > "$OV" || { rc=2; continue; }
   TAGS=verif
   [ -f "h/$id/TAGS" ] && TAGS="verif,$(cat h/$id/TAGS)"
   go build -tags "$TAGS" -overlay "$OV" -o "build/bin/$id" "./h/$id" || rc=2
